@@ -259,7 +259,7 @@ def _render_full(case):
     signal = ["", "See ", "See also ", "But see "][case.get("signal", 0) % 4]
     pl, df = case["plaintiff"], case["defendant"]
     core = f"{case['volume']} {case['reporter']} {case['page']}"
-    s = f"{prose}. {signal}"
+    s = "" if case.get("at_start") else f"{prose}. {signal}"  # at_start: the citation opens the text (offset 0)
     t["pl_start"] = len(s)
     s += f"{pl} v. {df}, "
     t["core_start"] = len(s)
@@ -385,7 +385,7 @@ def eval_short(case, res):
     core = f"{case['volume']} {R}{',' if case.get('comma') else ''} at {page}"
     pin_tail = case.get("pin_tail") or ""  # e.g. "-350" or ", 360"
     paren = case.get("paren") or ""
-    s = f"{prose}. "
+    s = "" if case.get("at_start") else f"{prose}. "
     a0 = len(s)
     if ante:
         s += f"{ante}, "
@@ -439,7 +439,7 @@ def eval_supra(case, res):
     prose = prose_for(case)
     vol = case.get("volume") or ""
     pin = case.get("pin") or ""  # e.g. "at 240" / "at 240-41"
-    s = f"{prose}. "
+    s = "" if case.get("at_start") else f"{prose}. "
     a0 = len(s)
     s += f"{ante}, "
     if vol:
@@ -661,7 +661,7 @@ def _full_case(draw, court_only=False):
     page = draw(st.one_of(st.integers(1, 9999).map(str), st.integers(1, 9999).map(str), st.sampled_from(["___", "_", "xiv", "lxiv"])))
     case = {"form": "full", "reporter": R, "volume": vol, "page": page, "plaintiff": draw(_party), "defendant": draw(_party),
             "prose": draw(st.integers(0, 4)), "signal": draw(st.integers(0, 3)), "term": draw(st.integers(0, 4)),
-            "long": draw(st.sampled_from([0, 0, 0, 0, 45, 70, 120]))}
+            "long": draw(st.sampled_from([0, 0, 0, 0, 45, 70, 120])), "at_start": draw(st.integers(0, 5)) == 0}
     case["pin"] = draw(_pin(page))
     if "&" in case["pin"]:
         case["pin"] = case["pin"].replace(" & n. 4", "")
@@ -685,7 +685,7 @@ def _short(draw):
         tail = ""
     return {"form": "short", "reporter": R, "volume": draw(_volume_for(R)), "page": page, "comma": draw(st.booleans()), "pin_tail": tail,
             "antecedent": draw(st.one_of(st.just(""), _word)), "paren": draw(_paren), "prose": draw(st.integers(0, 4)), "term": draw(st.integers(0, 3)),
-            "long": draw(st.sampled_from([0, 0, 0, 45, 70, 120]))}
+            "long": draw(st.sampled_from([0, 0, 0, 45, 70, 120])), "at_start": draw(st.integers(0, 5)) == 0}
 
 
 @st.composite
@@ -693,7 +693,7 @@ def _supra(draw):
     n = draw(st.integers(1, 999))
     return {"form": "supra", "antecedent": draw(_word), "volume": draw(st.sampled_from(["", "", "", str(draw(st.integers(1, 999)))])),
             "pin": draw(st.sampled_from(["", f"at {n}", f"at {n}-{n + 5}", f"at {n}, {n + 9}", f"{n}"])), "sep": draw(st.integers(0, 2)),
-            "prose": draw(st.integers(0, 4)), "term": draw(st.integers(0, 2)), "long": draw(st.sampled_from([0, 0, 0, 45, 70, 120]))}
+            "prose": draw(st.integers(0, 4)), "term": draw(st.integers(0, 2)), "long": draw(st.sampled_from([0, 0, 0, 45, 70, 120])), "at_start": draw(st.integers(0, 5)) == 0}
 
 
 @st.composite
